@@ -1,25 +1,7 @@
 import warnings; warnings.simplefilter('ignore')
-import cirq, numpy as np
-q=cirq.LineQubit.range(3)
-c=cirq.Circuit([
- cirq.Moment(cirq.CNOT(q[0],q[2]), cirq.Z(q[1])),
- cirq.Moment(cirq.rx(0.3).on(q[0]), cirq.T(q[2])),
- cirq.Moment((cirq.Y**0.37).on(q[0]), cirq.measure(q[2], key='a')),
- cirq.Moment(cirq.measure(q[0], key='a')),
- cirq.Moment(cirq.PhasedXPowGate(phase_exponent=-0.5, exponent=0.5).on(q[1]).with_classical_controls('a'), cirq.FSimGate(np.pi/2,0.3).on(q[2],q[0]).with_classical_controls('a')),
-])
-out=cirq.merge_operations_to_circuit_op(c, lambda *_: True)
-print(out)
-for m in out:
-    for op in m:
-        if isinstance(op.untagged, cirq.CircuitOperation): print(op.untagged.circuit); print('---')
-print(len(out), [ [ (type(op.untagged).__name__, op.qubits) for op in m] for m in out])
-c2=cirq.Circuit(c[0:1], c[2:])  # fewer moments
-from cirq.transformers import transformer_primitives as tp
-orig=tp._MergedCircuit.get_cirq_circuit
-def spy(self,cset,tag):
-    for i,d in enumerate(self.components_by_index):
-        print('moment',i,[(sorted(map(str,c.qubits)), sorted(map(str,c.mkeys)), sorted(map(str,c.ckeys)), c.moment_id, len(getattr(cset.find(c),'ops',[])) ) for c in d])
-    return orig(self,cset,tag)
-tp._MergedCircuit.get_cirq_circuit=spy
-out=cirq.merge_operations_to_circuit_op(c, lambda *_: True)
+import cirq
+q=cirq.LineQubit.range(2)
+c=cirq.Circuit(cirq.Moment(cirq.X(q[0])), cirq.Moment(cirq.measure(q[0],key='a')), cirq.Moment(cirq.measure(q[1],key='a')), cirq.Moment(cirq.X(q[1])))
+out=cirq.synchronize_terminal_measurements(c)
+print(c); print(out)
+print(cirq.Simulator().run(c).records, cirq.Simulator().run(out).records)
